@@ -18,7 +18,7 @@ drv_codec c11 : script lines
 drv_codec c12 : script lines
     <hex input> | [@k ]<op> ; [@k ]<op> ; ...
   op = bool byte i16 i32 i64 v7 bytes str raw<n>;  `@k` = the call is made on a fresh stream positioned at k
-  output:  <out> p=<pos> l=<len> a=<0|1> ; ...
+  output:  <out> p=<pos> l=<len> a=<0|1> ; ... | alias=-
   out = ok:<value> | err:<Enum> | panic ; a=1 iff the ghost allocation exceeds 2*(remaining input) + 4096
 
 drv_codec spec : script lines `leb <nat>` / `le <w> <nat>`  → hex of the specification encoders (used by tests only)
@@ -261,7 +261,8 @@ def stepC12 (_ : Unit) (line : String) : Unit × String :=
     | some buf =>
       match parseAll? (fun (s : String) => parseStep? (words s)) (body.splitOn " ; ") with
       | none => ((), "bad-op")
-      | some steps => ((), " ; ".intercalate (runC12 buf 0 steps))
+      -- the model's values are immutable: a returned string cannot change afterwards
+      | some steps => ((), " ; ".intercalate (runC12 buf 0 steps) ++ " | alias=-")
   | _ => ((), "bad-op")
 
 def stepSpec (_ : Unit) (line : String) : Unit × String :=
